@@ -784,6 +784,8 @@ LEX_PROBES = {
         ('50arcmin', "astropy.units.Quantity('50', ['unit', pi*ANG/10800])", 'arcmin'),
         ('50arcsec', "astropy.units.Quantity('50', ['unit', pi*ANG/648000])", 'arcsec'),
         ('50pix', "astropy.units.Quantity('50', ['unit', 1])", 'pix is dimensionless'),
+        ('8.333e-04deg', "astropy.units.Quantity('8.333e-04', ['unit', pi*ANG/180])", 'exponent notation (fmt=".3e") keeps its unit'),
+        ('1.5E+01arcsec', "astropy.units.Quantity('1.5E+01', ['unit', pi*ANG/648000])", 'exponent notation, upper case'),
         ('50', 'raises CRTFRegionParserError', 'a length without unit is an error'),
     ],
 }
